@@ -52,6 +52,9 @@ Definition spec (k : Z) : design :=
      next := [(n_areg, spec_areg op n); (n_breg, spec_breg op n); (n_oreg, spec_oreg op n); (n_pc, spec_pc op n)];
      wires := [(n_fdata, x_fetch); (n_ddata, ArrSel n_mem 32 (spec_daddr op n))];
      mem_writes := [(n_mem, (C (spec_we op), (spec_daddr op n, xA)))];
+     clocking := [(n_mem, ["posedge i_clk"; "posedge i_rst"]%string); (n_areg, ["posedge i_clk"; "posedge i_rst"]%string);
+                  (n_breg, ["posedge i_clk"; "posedge i_rst"]%string); (n_oreg, ["posedge i_clk"; "posedge i_rst"]%string);
+                  (n_pc, ["posedge i_clk"; "posedge i_rst"]%string)];
      nx := 0 |}.
 
 (* ------------------------------------------------------------------ shallow form *)
